@@ -224,3 +224,366 @@ fn c00_setup_probe() {
 
 
 
+
+// ---------------------------------------------------------------------------------------------------------
+// C09: cut points are exactly the k*stride-th messages, latest first, at most clamp(limit,1,32) of them.
+// Faithful ordinal index: the thread has COUNT messages (symbolic); message number `o` (1-based) has seq 3*o+1.
+// The index stub also asserts that the planner only asks for ordinals that exist (1..=COUNT) -- an off-by-one in the
+// ordinal arithmetic trips it. No checkpoint exists in this family (the checkpoint cache answers Ok(None) and the
+// full sidecar is present), so nothing is already checkpointed.
+// Bounds (measured: every planner round costs ~40 s of symex): COUNT < 64, stride < 16, limit in {None, 0, 1, 2}.
+// ---------------------------------------------------------------------------------------------------------
+// Harness context is handed to the stubs THROUGH the thread-id argument: an empty &str whose pointer addresses a
+// harness-owned context struct (writes to `static mut` made Kani/CBMC mis-model unrelated constants in this crate --
+// Vec::new() capacities came back non-zero -- so statics are not used to talk to stubs).
+#[repr(C)]
+struct HCtx {
+    count: u64,
+}
+fn ctx_id(ctx: &HCtx) -> &str {
+    unsafe { core::str::from_utf8_unchecked(core::slice::from_raw_parts(ctx as *const HCtx as *const u8, 0)) }
+}
+fn ctx_of(id: &str) -> &HCtx {
+    unsafe { &*(id.as_ptr() as *const HCtx) }
+}
+
+fn stub_message_count(_this: &ContinuityStreamCache, id: &str) -> io::Result<Option<u64>> {
+    Ok(Some(ctx_of(id).count))
+}
+fn stub_message_by_ordinal(_this: &ContinuityStreamCache, id: &str, ordinal: u64) -> io::Result<Option<(u64, String)>> {
+    assert!(ordinal >= 1 && ordinal <= ctx_of(id).count, "planner asked the ordinal index for a message that does not exist");
+    Ok(Some((ordinal * 3 + 1, String::new())))
+}
+fn stub_last_seq_some(_this: &ContinuityStreamCache, _id: &str) -> io::Result<Option<u64>> {
+    Ok(Some(0))
+}
+fn stub_replay_unreachable(_this: &ContinuityStore, _id: &str) -> io::Result<Vec<Event>> {
+    assert!(false, "fast path with a faithful cache fell back to truth replay");
+    Ok(Vec::new())
+}
+
+#[kani::proof]
+#[kani::unwind(4)]
+#[kani::stub(std::fmt::format, stub_fmt_format)]
+#[kani::stub(std::hash::RandomState::new, stub_random_state_new)]
+#[kani::stub(ContinuityStreamCache::message_count_messages_runs_v1, stub_message_count)]
+#[kani::stub(ContinuityStreamCache::message_by_ordinal_messages_runs_v1, stub_message_by_ordinal)]
+#[kani::stub(ContinuityStreamCache::latest_compaction_checkpoint_before_or_at_seq_v1, stub_latest_ckpt_none)]
+#[kani::stub(ContinuityStreamCache::try_read_last_seq, stub_last_seq_some)]
+#[kani::stub(ContinuityStore::replay_events, stub_replay_unreachable)]
+fn c09_cut_points_ordinals() {
+    let count: u64 = kani::any();
+    let stride: u64 = kani::any();
+    kani::assume(count < 64 && stride < 16);
+    let ctx = HCtx { count };
+    let stride_req: Option<u64> = Some(stride);
+    let limit_raw: u32 = kani::any();
+    kani::assume(limit_raw <= 2);
+    let limit_req: Option<u32> = if kani::any() { Some(limit_raw) } else { None };
+    let store = kani_store();
+    let r = store.compaction_cut_points_v1(
+        ctx_id(&ctx),
+        CompactionCutPointsV1Request { stride_messages: stride_req, limit: limit_req },
+    );
+    match &r {
+        Err(_) => {
+            assert!(stride == 0, "cut points refused although the stride is valid");
+        }
+        Ok(resp) => {
+            assert!(stride != 0, "stride 0 accepted");
+            let limit = match limit_req {
+                None => 1u64,
+                Some(l) => {
+                    if l < 1 { 1 } else { l as u64 }
+                }
+            };
+            let k = count / stride; // number of cut points that exist
+            let want = if k < limit { k } else { limit };
+            assert!(resp.message_count == count && resp.stride_messages == stride);
+            assert!(resp.cut_points.len() as u64 == want, "wrong number of cut points");
+            let mut j = 0usize;
+            while j < resp.cut_points.len() {
+                let cp = &resp.cut_points[j];
+                let ord = (k - j as u64) * stride;
+                assert!(cp.target_message_ordinal == ord, "cut point is not the k*stride-th message (latest first)");
+                assert!(cp.to_seq == ord * 3 + 1, "cut point seq is not that message's seq");
+                assert!(!cp.already_checkpointed && cp.latest_checkpoint_id.is_none(), "cut point reported as checkpointed without any checkpoint");
+                j += 1;
+            }
+            kani::cover!(resp.cut_points.len() == 2, "two cut points planned");
+            kani::cover!(resp.cut_points.len() == 0, "thread shorter than the stride");
+        }
+    }
+    core::mem::forget(r);
+}
+
+// ---------------------------------------------------------------------------------------------------------
+// Truth history handed to the code under test: a harness-owned STACK array of frames, reached by the replay stub
+// through the context pointer carried in the thread-id argument, and aliased by a capacity-0 Vec (see common.rs).
+// ---------------------------------------------------------------------------------------------------------
+#[repr(C)]
+struct HistCtx {
+    count: u64,
+    hist: *mut Event,
+    hist_len: usize,
+    appended: u32,
+}
+fn hctx_id(ctx: &HistCtx) -> &str {
+    unsafe { core::str::from_utf8_unchecked(core::slice::from_raw_parts(ctx as *const HistCtx as *const u8, 0)) }
+}
+fn hctx_of(id: &str) -> &mut HistCtx {
+    unsafe { &mut *(id.as_ptr() as *mut HistCtx) }
+}
+fn stub_replay_events_ctx(_this: &ContinuityStore, id: &str) -> io::Result<Vec<Event>> {
+    let ctx = hctx_of(id);
+    Ok(unsafe { alias_vec(ctx.hist, ctx.hist_len) })
+}
+
+
+// ---------------------------------------------------------------------------------------------------------
+// Context-carrying store: every stub reaches the harness context through `self` -- the store's data_dir, the
+// cache's dir and the event log's path are EMPTY paths whose buffer pointer addresses the context struct.
+// ---------------------------------------------------------------------------------------------------------
+#[repr(C)]
+struct Env {
+    // truth history (harness-owned stack array)
+    hist: *mut Event,
+    hist_len: usize,
+    // effect recorder
+    replays: u32,
+    created: u32,          // create_continuity calls
+    log_appends: u32,      // EventLog::append calls
+    last_seq: u64,
+    last_on_parent: bool,  // the appended frame carried the PARENT's stream id
+    last_kind: u8,         // 1 = branched, 2 = handoff_created, 0 = other
+    last_cut: u64,
+    last_has_summary_artifact: bool,
+    bundle_writes: u32,
+}
+impl Env {
+    fn new(hist: *mut Event, hist_len: usize) -> Env {
+        Env { hist, hist_len, replays: 0, created: 0, log_appends: 0, last_seq: 0, last_on_parent: false, last_kind: 0,
+              last_cut: 0, last_has_summary_artifact: false, bundle_writes: 0 }
+    }
+}
+fn env_path(env: *mut Env) -> PathBuf {
+    use std::os::unix::ffi::OsStringExt;
+    PathBuf::from(std::ffi::OsString::from_vec(unsafe { Vec::from_raw_parts(env as *mut u8, 0, 0) }))
+}
+fn env_of_path(p: &Path) -> &mut Env {
+    unsafe { &mut *(p.as_os_str().as_encoded_bytes().as_ptr() as *mut Env) }
+}
+// Returned BY VALUE and kept on the harness stack (ManuallyDrop): fields of a Box::leak'ed store are read back from a
+// malloc'ed object, which CBMC does not constant-fold (e.g. the empty workspace_root then has a symbolic length).
+fn kani_store_env(env: *mut Env) -> core::mem::ManuallyDrop<ContinuityStore> {
+    let (sender, receiver) = broadcast::channel(1);
+    core::mem::forget(receiver);
+    let store = ContinuityStore {
+        data_dir: env_path(env),
+        workspace_root: PathBuf::new(),
+        event_log: Arc::new(rip_log::verif_kani::kani_event_log_at(env_path(env))),
+        stream_cache: crate::continuity_stream_cache::verif_kani::kani_cache_at(env_path(env)),
+        sender,
+        index: Mutex::new(ContinuityIndexV1::default()),
+        next_seq: Mutex::new(HashMap::new()),
+    };
+    core::mem::ManuallyDrop::new(store)
+}
+fn stub_workspace_key(_root: &Path) -> String {
+    lit("w")
+}
+fn alias_str_raw(ptr: *mut u8, len: usize) -> String {
+    unsafe { String::from_raw_parts(ptr, len, 0) }
+}
+
+fn env_replay(this: &ContinuityStore, _id: &str) -> io::Result<Vec<Event>> {
+    let env = env_of_path(&this.data_dir);
+    env.replays += 1;
+    Ok(unsafe { alias_vec(env.hist, env.hist_len) })
+}
+fn env_create_continuity(
+    this: &ContinuityStore,
+    _workspace: String,
+    _id: Option<String>,
+    _title: Option<String>,
+    _set_default: bool,
+) -> Result<String, String> {
+    let env = env_of_path(&this.data_dir);
+    env.created += 1;
+    Ok(lit("k"))
+}
+fn env_log_append(this: &EventLog, event: &Event) -> io::Result<()> {
+    let env = env_of_path(rip_log::verif_kani::kani_event_log_path(this));
+    env.log_appends += 1;
+    env.last_seq = event.seq;
+    env.last_on_parent = event.session_id.len() == 1 && event.session_id.as_bytes()[0] == b'p';
+    match &event.kind {
+        EventKind::ContinuityBranched { parent_seq, .. } => {
+            env.last_kind = 1;
+            env.last_cut = *parent_seq;
+        }
+        EventKind::ContinuityHandoffCreated { from_seq, summary_artifact_id, .. } => {
+            env.last_kind = 2;
+            env.last_cut = *from_seq;
+            env.last_has_summary_artifact = summary_artifact_id.is_some();
+        }
+        _ => {
+            env.last_kind = 0;
+        }
+    }
+    Ok(())
+}
+fn env_cache_append_noop(_this: &ContinuityStreamCache, _event: &Event) {}
+fn env_send_noop<T>(_this: &broadcast::Sender<T>, value: T) -> Result<usize, broadcast::error::SendError<T>> {
+    core::mem::forget(value);
+    Ok(0)
+}
+fn stub_uuid_v4() -> Uuid {
+    Uuid::from_bytes([7u8; 16])
+}
+fn stub_now_ms_sym() -> u64 {
+    kani::any()
+}
+fn stub_to_string_empty<T: core::fmt::Display + ?Sized>(_t: &T) -> String {
+    String::new()
+}
+
+// history frames (ids / message ids alias harness-owned bytes: never freed, may be read after the call)
+fn h_created(seq: u64) -> Event {
+    Event { id: lit("c"), session_id: lit("p"), timestamp_ms: 0, seq,
+        kind: EventKind::ContinuityCreated { workspace: lit("w"), title: None } }
+}
+fn h_message(seq: u64, id: *mut u8) -> Event {
+    Event { id: alias_str_raw(id, 1), session_id: lit("p"), timestamp_ms: 0, seq,
+        kind: EventKind::ContinuityMessageAppended { actor_id: lit("u"), origin: lit("o"), content: lit("x") } }
+}
+fn h_run_spawned(seq: u64, mid: *mut u8) -> Event {
+    Event { id: lit("r"), session_id: lit("p"), timestamp_ms: 0, seq,
+        kind: EventKind::ContinuityRunSpawned { run_session_id: lit("s"), message_id: alias_str_raw(mid, 1), actor_id: None, origin: None } }
+}
+fn h_run_ended(seq: u64, mid: *mut u8) -> Event {
+    Event { id: lit("e"), session_id: lit("p"), timestamp_ms: 0, seq,
+        kind: EventKind::ContinuityRunEnded { run_session_id: lit("s"), message_id: alias_str_raw(mid, 1), reason: lit("d"), actor_id: None, origin: None } }
+}
+
+// ---------------------------------------------------------------------------------------------------------
+// C10: branch records correct lineage and never touches the parent.
+// History shape: [created, K1, K2] with K in {M = message, S = run_spawned, E = run_ended}; seqs symbolic increasing,
+// message ids / run message-ids symbolic over {a,b}. Selector symbolic: none / from_seq (any u64) / from_message_id
+// (1 byte over {a,b,c}: a message, a non-message reference, or nothing) / both.
+// ---------------------------------------------------------------------------------------------------------
+macro_rules! c10_branch {
+    ($name:ident, $k1:ident, $k2:ident) => {
+        #[kani::proof]
+        #[kani::unwind(6)]
+        #[kani::stub(std::fmt::format, stub_fmt_format)]
+        #[kani::stub(std::hash::RandomState::new, stub_random_state_new)]
+        #[kani::stub(uuid::Uuid::new_v4, stub_uuid_v4)]
+        #[kani::stub(now_ms, stub_now_ms_sym)]
+        #[kani::stub(alloc::string::ToString::to_string, stub_to_string_empty)]
+        #[kani::stub(workspace_key, stub_workspace_key)]
+        #[kani::stub(ContinuityStore::replay_events, env_replay)]
+        #[kani::stub(ContinuityStore::create_continuity, env_create_continuity)]
+        #[kani::stub(rip_log::EventLog::append, env_log_append)]
+        #[kani::stub(ContinuityStreamCache::append_best_effort, env_cache_append_noop)]
+        #[kani::stub(broadcast::Sender::send, env_send_noop)]
+        fn $name() {
+            let seqs: [u64; 3] = kani::any();
+            kani::assume(seqs[0] < seqs[1] && seqs[1] < seqs[2]);
+            let mut ids: [u8; 3] = kani::any();
+            kani::assume((ids[1] == b'a' || ids[1] == b'b') && (ids[2] == b'a' || ids[2] == b'b'));
+            let idp = ids.as_mut_ptr();
+            let mut hist = core::mem::ManuallyDrop::new([
+                h_created(seqs[0]),
+                $k1(seqs[1], unsafe { idp.add(1) }),
+                $k2(seqs[2], unsafe { idp.add(2) }),
+            ]);
+            let mut env = Env::new(hist.as_mut_ptr(), 3);
+            let store = kani_store_env(&mut env);
+
+            // selector
+            let sel: u8 = kani::any();
+            kani::assume(sel < 4);
+            let want_seq: u64 = kani::any();
+            let mut want_id_b: [u8; 1] = kani::any();
+            kani::assume(want_id_b[0] == b'a' || want_id_b[0] == b'b' || want_id_b[0] == b'c');
+            let from_seq = if sel == 1 || sel == 3 { Some(want_seq) } else { None };
+            let from_mid = if sel == 2 || sel == 3 { Some(alias_str_raw(want_id_b.as_mut_ptr(), 1)) } else { None };
+
+            let r = store.branch("p", None, from_mid, from_seq, lit("u"), lit("o"));
+
+            // reference over the history
+            let head = seqs[2];
+            let is_msg = |e: &Event| matches!(e.kind, EventKind::ContinuityMessageAppended { .. });
+            match &r {
+                Ok((_tid, cut, mid)) => {
+                    assert!(env.created == 1 && env.log_appends == 1, "branch must create the child and append exactly its lineage frame");
+                    assert!(!env.last_on_parent, "branch appended a frame to the parent thread");
+                    assert!(env.last_seq == 1 && env.last_kind == 1, "lineage frame is not continuity_branched at seq 1 of the child");
+                    assert!(env.last_cut == *cut, "returned cut differs from the recorded cut");
+                    assert!(*cut <= head, "recorded cut lies beyond the parent's head");
+                    assert!(sel != 3, "conflicting selectors accepted");
+                    if sel == 0 || sel == 1 {
+                        let bound = if sel == 1 { want_seq } else { head };
+                        assert!(*cut == bound, "cut is not the requested seq / the head");
+                        // last message at or before the cut
+                        let mut want: Option<u8> = None;
+                        let mut j = 0;
+                        while j < 3 {
+                            if is_msg(&hist[j]) && seqs[j] <= bound {
+                                want = Some(ids[j]);
+                            }
+                            j += 1;
+                        }
+                        match (want, mid) {
+                            (None, None) => {}
+                            (Some(w), Some(m)) => assert!(m.len() == 1 && m.as_bytes()[0] == w, "lineage names the wrong message"),
+                            _ => assert!(false, "lineage message presence differs from the history"),
+                        }
+                    } else {
+                        // requested message together with the end of the run that answered it
+                        let w = want_id_b[0];
+                        let mut found = false;
+                        let mut maxrel = 0u64;
+                        let mut j = 0;
+                        while j < 3 {
+                            let rel = match &hist[j].kind {
+                                EventKind::ContinuityMessageAppended { .. } => {
+                                    if ids[j] == w { found = true; true } else { false }
+                                }
+                                EventKind::ContinuityRunSpawned { .. } | EventKind::ContinuityRunEnded { .. } => ids[j] == w,
+                                _ => false,
+                            };
+                            if rel && seqs[j] > maxrel {
+                                maxrel = seqs[j];
+                            }
+                            j += 1;
+                        }
+                        assert!(found, "branch accepted a message id that is not a message of the parent");
+                        assert!(*cut == maxrel, "cut is not the end of the requested message's run");
+                        assert!(mid.as_ref().map(|m| m.len() == 1 && m.as_bytes()[0] == w).unwrap_or(false), "lineage names another message");
+                    }
+                    kani::cover!(sel == 2, "branch from a message id accepted");
+                    kani::cover!(sel == 1 && want_seq < head, "branch from a mid-thread seq accepted");
+                }
+                Err(_) => {
+                    assert!(env.created == 0 && env.log_appends == 0, "a refused branch wrote something");
+                    if sel == 1 {
+                        assert!(want_seq > head, "an in-range from_seq was refused");
+                    }
+                    if sel == 0 {
+                        assert!(false, "branch without selector refused on an existing thread");
+                    }
+                    kani::cover!(sel == 3, "conflicting selectors refused");
+                }
+            }
+            core::mem::forget(r);
+        }
+    };
+}
+c10_branch!(c10_branch_ms, h_message, h_run_spawned);
+c10_branch!(c10_branch_mm, h_message, h_message);
+c10_branch!(c10_branch_me, h_message, h_run_ended);
+c10_branch!(c10_branch_sm, h_run_spawned, h_message);
+c10_branch!(c10t_branch_se, h_run_spawned, h_run_ended);
+c10_branch!(c10t_branch_em, h_run_ended, h_message);
